@@ -27,6 +27,17 @@ Ltac dphase :=
   try (let Hx := fresh in intro Hx; discriminate Hx);
   try match goal with Hx : @eq phase _ _ |- _ => discriminate Hx end.
 
+(* outside the body phase (or with no deadline armed there) time passes the plain way *)
+Lemma tick_eq c d s :
+  (closed s <> None \/ ph s <> PBody \/ fire_at s = None) ->
+  tick c d s = if d <? 0 then s else tick_plain d s.
+Proof.
+  intros H. unfold tick. destruct (d <? 0); [reflexivity|].
+  destruct (closed s) eqn:Hc; [reflexivity|]. destruct (ph s) eqn:Hp; try reflexivity.
+  destruct (fire_at s) eqn:Hf; [|reflexivity].
+  destruct H as [H|[H|H]]; [contradiction|contradiction|discriminate].
+Qed.
+
 Section OneConnection.
 Variable c : cfg.
 (* the default: no whole-request deadline (Proxy.ReadTimeout = 0) *)
@@ -45,7 +56,7 @@ Definition inv (s : st) : Prop :=
   fire_at s = option_map (Z.add (entered s)) (eff_limit c s) /\
   (forall f, fire_at s = Some f -> now s < f) /\
   (ph s = PPHdr -> pp_early = true -> rd s = None) /\
-  (ph s = PHead -> rd s = arm (rhdr_eff c) (entered s)) /\
+  (ph s = PHead -> rd s = arm (rhdr_eff c) (t0 s)) /\
   (ph s = PPHdr -> pp_early = false -> lazy_ok s).
 
 Lemma omin_map t a e : omin (option_map (Z.add t) a) (option_map (Z.add t) e) = option_map (Z.add t) (omin a e).
@@ -59,6 +70,14 @@ Proof.
   intros H f ->. destruct (omin a (Some f)) eqn:E.
   - specialize (H _ eq_refl). apply omin_some_r in E. lia.
   - destruct a; discriminate.
+Qed.
+
+(* with ReadTimeout = 0 no deadline is armed while a body is outstanding *)
+Lemma tick_inv d s : inv s -> tick c d s = if d <? 0 then s else tick_plain d s.
+Proof.
+  intros Hi. apply tick_eq. destruct (closed s) eqn:Hc; [left; discriminate|].
+  destruct (Hi Hc) as (_ & Hf & _). unfold eff_limit in Hf.
+  destruct (ph s) eqn:Hp; try (right; left; discriminate). right; right. rewrite Hf. reflexivity.
 Qed.
 
 Lemma inv_read_request s : closed s = None -> inv (start_read_request c s).
@@ -99,7 +118,7 @@ Proof.
       all: try (intros f Hf; eapply arm_some; eauto).
     + intros _.
       assert (Hl : lazy_ok (mkst 0 PPHdr (rd (after_accept c s_init)) (ctxd (after_accept c s_init)) (pp_timer c 0) 0 None
-                                 (ph (after_accept c s_init)))).
+                                 (ph (after_accept c s_init)) 0)).
       { unfold lazy_ok, after_accept, start_ltls, start_read_request, pp_timer.
         destruct (c_has_tls c); cbn [nxt ppd ctxd rd entered limit now s_init ph];
           (split; [auto|]); (split; [apply arm_pos|]); (split; [|intros; try reflexivity; try (match goal with Hx : _ = PIdle |- _ => discriminate Hx end)]).
@@ -144,11 +163,11 @@ Qed.
 
 (* with ReadTimeout = 0 the read deadline is cleared once the head is complete *)
 Lemma rd_after_head_none s :
-  rd s = arm (rhdr_eff c) (entered s) -> rd_after_head c s = None.
+  rd s = arm (rhdr_eff c) (t0 s) -> rd_after_head c s = None.
 Proof.
   intros Hrd. unfold rd_after_head. rewrite Hread, arm_zero.
   destruct whole_set_guard_equal; [|reflexivity].
-  destruct (arm (rhdr_eff c) (entered s)) eqn:E; cbn [opt_eqb]; [reflexivity|].
+  destruct (arm (rhdr_eff c) (t0 s)) eqn:E; cbn [opt_eqb]; [reflexivity|].
   congruence.
 Qed.
 
@@ -159,7 +178,7 @@ Proof.
 Qed.
 
 Lemma inv_head_done_body s :
-  closed s = None -> rd s = arm (rhdr_eff c) (entered s) -> inv (head_done_body c s).
+  closed s = None -> rd s = arm (rhdr_eff c) (t0 s) -> inv (head_done_body c s).
 Proof.
   intros Hc Hrd _. unfold head_done_body. rewrite (rd_after_head_none s Hrd).
   cbn [closed entered now fire_at ph rd limit eff_limit]. repeat split; try lia; try discriminate.
@@ -172,7 +191,7 @@ Proof.
 Qed.
 
 Lemma inv_connect_done s :
-  closed s = None -> rd s = arm (rhdr_eff c) (entered s) -> inv (connect_done c s).
+  closed s = None -> rd s = arm (rhdr_eff c) (t0 s) -> inv (connect_done c s).
 Proof.
   intros Hc Hrd _. unfold connect_done. rewrite (rd_after_head_none s Hrd).
   destruct (c_mitm_on c); cbn [closed entered now fire_at ph rd limit eff_limit].
@@ -212,9 +231,9 @@ Proof.
   split; [cbn; lia|]. split; [exact Hf|]. split; [exact Hlt|]. split; [exact Hpp|]. split; [exact Hhd|exact Hlz].
 Qed.
 
-Lemma inv_tick d s : inv s -> inv (tick d s).
+Lemma inv_tick d s : inv s -> inv (tick c d s).
 Proof.
-  intros Hi. unfold tick. destruct (d <? 0) eqn:Ed; [assumption|]. apply Z.ltb_ge in Ed.
+  intros Hi. rewrite (tick_inv d s Hi). unfold tick_plain. destruct (d <? 0) eqn:Ed; [assumption|]. apply Z.ltb_ge in Ed.
   destruct (closed s) eqn:Hc.
   - intros H. cbn in H. congruence.
   - destruct (Hi Hc) as (He & Hf & Hlt & Hpp & Hhd & Hlz).
@@ -278,7 +297,7 @@ Lemma step_closed s e t :
   now s <= now (step c s e).
 Proof.
   intros Hc. destruct e; cbn [step]; rewrite ?Hc; try (repeat split; try assumption; lia).
-  unfold tick. destruct (d <? 0) eqn:Ed; [repeat split; try assumption; lia|].
+  rewrite tick_eq by (left; congruence). unfold tick_plain. destruct (d <? 0) eqn:Ed; [repeat split; try assumption; lia|].
   apply Z.ltb_ge in Ed. rewrite Hc. cbn. repeat split; try assumption; lia.
 Qed.
 
@@ -310,7 +329,7 @@ Lemma stall_step s e :
 Proof.
   intros Hi Hc Hs. destruct (Hi Hc) as (He & Hf & Hlt & _).
   destruct e as [d| | | | |]; cbn [stall] in Hs; try discriminate.
-  - cbn [step]. unfold tick. destruct (d <? 0) eqn:Ed.
+  - cbn [step]. rewrite (tick_inv d s Hi). unfold tick_plain. destruct (d <? 0) eqn:Ed.
     + cbn. repeat split; try lia. left; assumption.
     + apply Z.ltb_ge in Ed. rewrite Hc.
       destruct (fire_at s) as [f|] eqn:Ef.
@@ -348,7 +367,7 @@ Proof.
       { clear -Hcl. revert Hcl. generalize (step c s e). induction r as [|x r IHr]; intros s0 H0; [reflexivity|].
         rewrite run_cons. destruct (step_closed s0 x _ H0) as (K1 & _).
         rewrite (IHr _ K1). destruct x; cbn [step]; rewrite ?H0; try reflexivity.
-        unfold tick. destruct (d <? 0); [reflexivity|]. rewrite H0. reflexivity. }
+        rewrite tick_eq by (left; congruence). unfold tick_plain. destruct (d <? 0); [reflexivity|]. rewrite H0. reflexivity. }
       repeat split; try congruence; try lia.
       right. exists L. repeat split; try assumption. lia.
 Qed.
